@@ -5,12 +5,14 @@
 # long ./check run is going on in /verif.
 sid=$1; shift
 checks=${@:-$(echo $sid | cut -c1-3)}
+[ "$sid" = "none" ] && [ $# -eq 0 ] && { echo "usage: try_seed_iso.sh none <checks>"; exit 2; }
 ISO=${ISO:-/tmp/iso}
 mkdir -p $ISO
 if [ ! -d $ISO/repo ]; then git -C /repo worktree add -q --detach $ISO/repo HEAD || exit 2; fi
 git -C $ISO/repo checkout -q --detach $(git -C /repo rev-parse HEAD) 2>/dev/null
 git -C $ISO/repo checkout -q -- . ; git -C $ISO/repo clean -fdq -- src tests
-git -C $ISO/repo apply /verif/seeded/$sid/patch.diff || { echo "$sid: PATCH DOES NOT APPLY"; exit 2; }
+# seed id "none": the unchanged tree (for checking silence without disturbing a run in /verif)
+if [ "$sid" != "none" ]; then git -C $ISO/repo apply /verif/seeded/$sid/patch.diff || { echo "$sid: PATCH DOES NOT APPLY"; exit 2; }; fi
 rsync -a --delete --exclude target --exclude replays --exclude .git --exclude evidence /verif/ $ISO/verif/
 mkdir -p $ISO/verif/evidence
 sed -i "s#path = \"/repo\"#path = \"$ISO/repo\"#" $ISO/verif/harness/vcheck/Cargo.toml $ISO/verif/harness/vkit/Cargo.toml
